@@ -39,6 +39,9 @@ FAMILIES = {
     # day-first dates: the first row fixes the format pandas guesses for the whole column; a sample may guess another
     "dmy-dates": (["03/02/2013", "05/06/2014", "11/12/2015", "25/12/2016", "13/01/2020"], object, ["hello"]),
 }
+# whole-series tests: two sub-families, each acceptable on its own, never together (one coercion map / one path flavour per series)
+FAMILIES["bool-strings-2"] = (["yes", "no"], object, ["true", "false", "y", "n"])
+FAMILIES["windows-paths"] = (["C:\\Users\\a", "D:\\data\\x.csv"], object, ["/usr/lib", "/tmp/x"])
 LENGTHS = [1000, 1001, 1499, 1500, 2000, 2345, 3000]
 SMALL = [0, 1, 5, 12, 999]
 
@@ -167,6 +170,30 @@ def observe(case):
                 inlast = "raises " + type(e).__name__
             if inlast is not True:
                 add("data-not-in-last:%s" % p[-1], "returned data does not belong to the last reported type %s (%s)" % (p[-1], inlast), draw)
+            # two oracles that do not lean on the library's own verdict for this row order: (1) a relation that holds of the
+            # full data holds of any reordering of its rows (the date parser, which guesses its format from the first row, is
+            # the documented exception); (2) a cast never turns a value into a missing one
+            if case["family"] != "dmy-dates":
+                cur2 = s.sample(frac=1.0, random_state=12345)
+                for a, b in zip(path, path[1:]):
+                    rel = g[a][b]["relationship"]
+                    try:
+                        acc2 = bool(rel.is_relation(cur2, {}))
+                    except Exception as e:  # noqa
+                        acc2 = "raises " + type(e).__name__
+                    if acc2 is not True:
+                        add("reports-order-dependent-relation:%s->%s" % (a, b),
+                            "reported %s for %d rows (%s, contaminants at %s), but the same rows in another order fail %s -> %s (%s)"
+                            % (b, n, case["family"], case["pos"][:5], a, b, acc2), draw)
+                        break
+                    cur2 = rel.transform(cur2, {})
+            try:
+                lost = int(pd.isna(data).sum()) - int(pd.isna(s).sum())
+            except Exception:
+                lost = 0
+            if lost > 0:
+                add("cast-lost-values:%s" % p[-1], "the returned data has %d more missing values than the input (%d rows, %s, contaminants at %s)"
+                    % (lost, n, case["family"], case["pos"][:5]), draw)
     return {"fails": fails, "paths": sorted(paths), "full": full_res[1] if full_res[0] == "ok" else full_res}
 
 
